@@ -57,6 +57,10 @@ def c02_streams(run, tier, seed):
             src = f"{org}x := 0x{a:x}\n.scope s {{\nx = 0x{b:x}\n{mn} x\nin:\n}}\nend:\n.dl s.in, end\n"
         elif pat == 3:
             src = f"{org}.macro m(v) {{\nv = 0x{b:x}\n{mn} v\nafter:\n.dw after\n}}\nm(0x{a:x})\nend:\n"
+        elif pat == 4 and i % 12 == 4:
+            # exports of a named scope stay in its enclosing scope: a same-named scope nested in a later block does not
+            # redirect the top-level qualified label
+            src = f"{org}.scope h {{\nstart:\nrts\n}}\n{{\n.scope h {{\nnop\nstart:\nrtl\n}}\n}}\nhere:\n.dl h.start, here\n"
         elif pat == 4:
             src = f"{org}dup:\n.db 1\ndup:\n.db 2\n.dw dup\nend:\n"
         elif pat == 5 and i % 12 == 5:
@@ -171,6 +175,24 @@ def c05_streams(run, tier, seed):
                 pr = raw(rom, "\n".join(lines) + "\n")
                 pr["meta"] = (mn, d, place, reloc, rom)
                 progs.append(pr)
+    # user maps: RAM declared with a mirror range — a branch running in (or aiming at) the RAM banks or their mirror
+    for k in range(6 if tier == "quick" else 40):
+        mn = rng.choice(mns)
+        ramlo = rng.choice([0x70, 0x60, 0x50])
+        mir = rng.choice([0xF0, 0xE0])
+        maps = (f".map identifier=1 bank_range=0x00,0x3f addr_range=0x8000,0xffff mask=0x8000\n"
+                f".map identifier=2 bank_range=0x{ramlo:x},0x{ramlo + 1:x} addr_range=0,0xffff mask=0x10000 writable=1 mirror_bank_range=0x{mir:x},0x{mir + 1:x}\n")
+        where = rng.choice([ramlo, mir, mir + 1])
+        kind = k % 3
+        if kind == 0:
+            body = f"*=0x008000\nT:\n.db 1,2,3\n@=0x{where:02x}0000\n{mn} T\n"
+        elif kind == 1:
+            body = f"*=0x008000\n.db 1\n@=0x{where:02x}0010\nL:\nnop\n{mn} L\n"
+        else:
+            body = f"*=0x008000\n{mn} 0x{where:02x}0001\n"
+        pr = raw("low_rom", maps + body, usermap=(0, 0x3f, 0x8000))
+        pr["meta"] = (mn, 0, "usermap-ram-mirror", "ram", "low_rom")
+        progs.append(pr)
     for pr, r, m in run.run(progs):
         mn, d, place, reloc, rom = pr["meta"]
         s.cases += 1
